@@ -1,6 +1,7 @@
 package harness
 
 import (
+	"strings"
 	"encoding/json"
 	"os"
 	"path/filepath"
@@ -10,6 +11,33 @@ import (
 var levelOf = map[string]string{"C20": "fault_enumeration"}
 
 var nontrivialRule = map[string]string{}
+
+// nontrivialProbes: a run counts as non-trivial for a property when at least one of these
+// probes fired in it (the probes are counted by the oracles themselves).
+var nontrivialProbes = map[string][]string{
+	"C01": {"c01-confirmed-transfer-checked"},
+	"C02": {"c02-evaluated"},
+	"C03": {"c03-duplicate-offered"},
+	"C05": {"c05-api-ops", "c05-bank-ops", "c05-boundary-amount-offered"},
+	"C06": {"c06-balance-queries"},
+	"C07": {"c07-truncate-performed"},
+	"C08": {"c08-early-exit-or-cancel", "c07-truncate-performed", "c08-stream-consumed"},
+	"C09": {"c09-created-vertex-checked"},
+	"C10": {"c10-forbidden-vertex-offered", "c10-forbidden-proposal-offered"},
+}
+
+func isNontrivial(prop string, r *Record) bool {
+	ps, ok := nontrivialProbes[prop]
+	if !ok {
+		return r.Nontrivial
+	}
+	for _, p := range ps {
+		if r.Probes[p] > 0 {
+			return true
+		}
+	}
+	return false
+}
 
 func writeEvidence(o *DriveOpts, recs []*Record, sigs map[string]*sigInfo, other map[string]int, knownSeen []string, nviol int, infra []string, skipped int, wall float64) error {
 	probes := map[string]int64{}
@@ -35,7 +63,7 @@ func writeEvidence(o *DriveOpts, recs []*Record, sigs map[string]*sigInfo, other
 			shapes[s] = true
 		}
 		traces[r.Trace] = true
-		if r.Nontrivial {
+		if isNontrivial(o.Property, r) {
 			ntTraces[r.Trace] = true
 		}
 		simNS += r.SimNS
@@ -82,7 +110,7 @@ func writeEvidence(o *DriveOpts, recs []*Record, sigs map[string]*sigInfo, other
 	}
 	rule := nontrivialRule[o.Property]
 	if rule == "" {
-		rule = "one evaluation = one simulated run generated from (VERIF_SEED, index); distinct = distinct trace hash (hash of the merged event log: every task switch, network event, step result); non-trivial = the run exercised the property (see probes)"
+		rule = "one evaluation = one simulated run generated from (VERIF_SEED, index); distinct = distinct trace hash (hash of the merged event log: every task start/exit, step result, injected fault); non-trivial = at least one of these probes fired in the run: " + strings.Join(nontrivialProbes[o.Property], ", ")
 	}
 	hours := wall / 3600
 	cov := map[string]any{
